@@ -18,6 +18,7 @@ global size_of usize == 8;
 pub uninterp spec fn f_is_nan(x: f64) -> bool;
 pub uninterp spec fn f_is_inf(x: f64) -> bool;
 spec fn f_lt(a: f64, b: f64) -> bool { a.partial_cmp_spec(&b) == Some(Ordering::Less) }
+spec fn f_gt(a: f64, b: f64) -> bool { a.partial_cmp_spec(&b) == Some(Ordering::Greater) }
 spec fn f_finite(x: f64) -> bool { !f_is_nan(x) && !f_is_inf(x) }
 // IEEE: a comparison with a NaN operand is false
 #[verifier::external_body] proof fn axiom_lt_not_nan(a: f64, b: f64) requires f_lt(a, b) ensures !f_is_nan(a), !f_is_nan(b) {}
@@ -29,6 +30,9 @@ pub uninterp spec fn f_max(a: f64, b: f64) -> f64;
 pub assume_specification [ f64::min ] (a: f64, b: f64) -> (r: f64) ensures r == f_min(a, b);
 pub assume_specification [ f64::max ] (a: f64, b: f64) -> (r: f64) ensures r == f_max(a, b);
 
+// the float interpolation of TDigestView::{rank, quantile} is a function of the view (uninterpreted): pins that the wrappers DELEGATE to it
+pub uninterp spec fn view_rank_spec(min: f64, max: f64, cs: Seq<Centroid>, w: u64, v: f64) -> Option<f64>;
+pub uninterp spec fn view_quantile_spec(min: f64, max: f64, cs: Seq<Centroid>, w: u64, q: f64) -> Option<f64>;
 // `(0.0..=1.0).contains(&rank)`: the documented argument range of quantile (floats stay uninterpreted)
 pub uninterp spec fn f_in_unit(x: f64) -> bool;
 #[verifier::external_body] fn vx_in_unit_interval(rank: &f64) -> (r: bool) ensures r == f_in_unit(*rank) { (0.0..=1.0).contains(rank) }
@@ -358,7 +362,12 @@ self . k }
 
     fn rank ( & mut self , value : f64 ) -> ( r : Option < f64 > ) requires old ( self ) . wf ( ) , ensures
 /*@C10.rank_value_validated*/ ! f_is_nan ( value ) , final ( self ) . wf ( ) , final ( self ) . same_cfg ( old ( self ) ) , final ( self ) . total ( ) == old ( self ) . total ( ) ,
-/*@C10.rank_shape*/ r is None <==> old ( self ) . empty ( ) , {
+/*@C10.rank_shape*/ r is None <==> old ( self ) . empty ( ) ,
+/*@C10.rank_single_value*/ ( ! old ( self ) . empty ( ) && ! f_lt ( value , old ( self ) . min ) && ! f_gt ( value , old ( self ) . max ) && old ( self ) . centroids @ . len ( ) + old ( self ) . buffer @ . len ( ) == 1 ) ==> r == Some ( 0.5f64 ) ,
+/*@C10.rank_delegates*/ ( ! old ( self ) . empty ( ) && ! f_lt ( value , old ( self ) . min ) && ! f_gt ( value , old ( self ) . max ) && old ( self ) . centroids @ . len ( ) + old ( self ) . buffer @ . len ( ) != 1 ) ==> r == view_rank_spec ( final ( self ) . min , final ( self ) . max , final ( self ) . centroids @ , final ( self ) . centroids_weight , value ) , {
+proof {
+axiom_f64_cmp_deterministic ( ) ;
+}
 vx_documented_panic ( ! value . is_nan ( ) ) ;
 if self . is_empty ( ) {
 return None ;
@@ -382,7 +391,8 @@ self . view ( ) . rank ( value ) }
 
     fn quantile ( & mut self , rank : f64 ) -> ( r : Option < f64 > ) requires old ( self ) . wf ( ) , ensures
 /*@C10.quantile_rank_validated*/ f_in_unit ( rank ) , final ( self ) . wf ( ) , final ( self ) . same_cfg ( old ( self ) ) , final ( self ) . total ( ) == old ( self ) . total ( ) ,
-/*@C10.quantile_shape*/ r is None <==> old ( self ) . empty ( ) , {
+/*@C10.quantile_shape*/ r is None <==> old ( self ) . empty ( ) ,
+/*@C10.quantile_delegates*/ ! old ( self ) . empty ( ) ==> r == view_quantile_spec ( final ( self ) . min , final ( self ) . max , final ( self ) . centroids @ , final ( self ) . centroids_weight , rank ) , {
 vx_documented_panic ( vx_in_unit_interval ( & rank ) ) ;
 if self . is_empty ( ) {
 return None ;
@@ -482,7 +492,7 @@ self . do_merge ( tmp , self . buffer . len ( ) as u64 + other . total_weight ( 
 
 
 
-    fn view ( & mut self ) -> ( r : TDigestView < '_ > ) requires old ( self ) . wf ( ) ensures r . centroids @ == final ( self ) . centroids @ , r . centroids_weight == final ( self ) . centroids_weight , final ( self ) . wf ( ) , final ( self ) . same_cfg ( old ( self ) ) , final ( self ) . total ( ) == old ( self ) . total ( ) , final ( self ) . buffer @ . len ( ) == 0 , ! old ( self ) . empty ( ) ==> final ( self ) . centroids @ . len ( ) >= 1 , {
+    fn view ( & mut self ) -> ( r : TDigestView < '_ > ) requires old ( self ) . wf ( ) ensures r . centroids @ == final ( self ) . centroids @ , r . centroids_weight == final ( self ) . centroids_weight , r . min == final ( self ) . min , r . max == final ( self ) . max , old ( self ) . buffer @ . len ( ) == 0 ==> * final ( self ) == * old ( self ) , final ( self ) . wf ( ) , final ( self ) . same_cfg ( old ( self ) ) , final ( self ) . total ( ) == old ( self ) . total ( ) , final ( self ) . buffer @ . len ( ) == 0 , ! old ( self ) . empty ( ) ==> final ( self ) . centroids @ . len ( ) >= 1 , {
 self . compress ( ) ;
 TDigestView {
 min : self . min , max : self . max , centroids : & self . centroids , centroids_weight : self . centroids_weight , }
@@ -664,7 +674,7 @@ self . centroids_weight }
 
 
 
-    fn view ( & self ) -> ( r : TDigestView < '_ > ) ensures r . centroids @ == self . centroids @ , r . centroids_weight == self . centroids_weight {
+    fn view ( & self ) -> ( r : TDigestView < '_ > ) ensures r . centroids @ == self . centroids @ , r . centroids_weight == self . centroids_weight , r . min == self . min , r . max == self . max {
 TDigestView {
 min : self . min , max : self . max , centroids : & self . centroids , centroids_weight : self . centroids_weight , }
 }
@@ -729,7 +739,8 @@ Some ( self . max ) }
 
     fn rank ( & self , value : f64 ) -> ( r : Option < f64 > ) ensures
 /*@C10.rank_value_validated*/ ! f_is_nan ( value ) ,
-/*@C10.rank_shape*/ r is None <==> self . centroids @ . len ( ) == 0 {
+/*@C10.rank_shape*/ r is None <==> self . centroids @ . len ( ) == 0 ,
+/*@C10.rank_delegates*/ r == view_rank_spec ( self . min , self . max , self . centroids @ , self . centroids_weight , value ) {
 vx_documented_panic ( ! value . is_nan ( ) ) ;
 self . view ( ) . rank ( value ) }
 
@@ -738,7 +749,8 @@ self . view ( ) . rank ( value ) }
 
     fn quantile ( & self , rank : f64 ) -> ( r : Option < f64 > ) ensures
 /*@C10.quantile_rank_validated*/ f_in_unit ( rank ) ,
-/*@C10.quantile_shape*/ r is None <==> self . centroids @ . len ( ) == 0 {
+/*@C10.quantile_shape*/ r is None <==> self . centroids @ . len ( ) == 0 ,
+/*@C10.quantile_delegates*/ r == view_quantile_spec ( self . min , self . max , self . centroids @ , self . centroids_weight , rank ) {
 vx_documented_panic ( vx_in_unit_interval ( & rank ) ) ;
 self . view ( ) . quantile ( rank ) }
 
@@ -760,13 +772,13 @@ impl TDigestView<'_> {
     #[verifier::external_body]
     fn quantile(&self, rank: f64) -> (r: Option<f64>)
       requires f_in_unit(rank)
-      ensures r is None <==> self.centroids@.len() == 0
+      ensures r is None <==> self.centroids@.len() == 0, r == view_quantile_spec(self.min, self.max, self.centroids@, self.centroids_weight, rank)
     { unimplemented!() }
 
     #[verifier::external_body]
     fn rank(&self, value: f64) -> (r: Option<f64>)
       requires !f_is_nan(value)
-      ensures r is None <==> self.centroids@.len() == 0
+      ensures r is None <==> self.centroids@.len() == 0, r == view_rank_spec(self.min, self.max, self.centroids@, self.centroids_weight, value)
     { unimplemented!() }
 
     fn pmf ( & self , split_points : & [ f64 ] ) -> ( r : Option < Vec < f64 >> ) ensures
